@@ -81,6 +81,9 @@ EdgeF == {[setup |-> Mk(SZ, <<TRUE, TRUE, TRUE>>, "100", "0", mv, 1), ops |-> <<
     \cup {[setup |-> Mk(SU, <<TRUE, TRUE, TRUE>>, "100", "0", mv, 1), ops |-> <<Un(2, 1, "all"), Rd(0), Ep(0), Rd(0), Ep(0)>>] : mv \in 1..3}
     \cup {[setup |-> Mk(SZ, <<TRUE, TRUE, TRUE>>, "100", "0", mv, 1),
             ops |-> <<Own("unregister", 2), Own("register", 2), Rd(0), Ep(0), St(2, 2, "one"), Un(2, 2, "all"), Rd(0), Ep(0)>>] : mv \in 1..3}
+    \* (a member of the concluded set that unstakes everything is refilled by its emission / reward; with minimum
+    \*  reliability 1 and a missed proposal it receives nothing, keeps a zero stake and must drop out although there is room)
+    \cup {[setup |-> Mk(SU, <<TRUE, TRUE, TRUE>>, "100", "1", 3, 1), ops |-> <<Un(2, 1, "all"), RdF(2), Rd(0), Ep(0), Rd(0), Ep(0)>>]}
     \cup {[setup |-> Mk(<<"0", "0", "0">>, <<TRUE, TRUE, TRUE>>, "100", "0", mv, 1), ops |-> <<Rd(0), Ep(0), St(3, 2, "sub"), Rd(0), Ep(0)>>] : mv \in {1, 3}}
 EdgeCases == EdgeA \cup EdgeB \cup EdgeC \cup EdgeD \cup EdgeE \cup EdgeF
 GInit == IF Mode = "edge" THEN \E c \in EdgeCases : setup = c.setup /\ hist = c.ops /\ pending = "" /\ done = FALSE
